@@ -686,3 +686,20 @@ Proof.
   pose proof (lock_accumulates_lemma ops (claim_key c) W) as H.
   subst p. cbn [p_value p_sender p_to]. unfold bal_at in H. repeat split; try reflexivity. exact H.
 Qed.
+
+(* for rewards as Process makes them (epoch = block/E + 1, unlock = block + depth, depth >= E) the unlock guard of a
+   claim already implies its epoch guard *)
+Lemma unlock_guard_implies_epoch_guard (b d h : N) : 0 < E -> E <= d ->
+  (b + d) - (b + d) mod E <= h -> b / E + 1 < h / E + 1.
+Proof.
+  intros HE Hd Hh.
+  pose proof (N.div_mod (b + d) E ltac:(lia)) as H1.
+  pose proof (N.mod_lt (b + d) E ltac:(lia)) as H2.
+  pose proof (N.div_mod b E ltac:(lia)) as H3.
+  pose proof (N.mod_lt b E ltac:(lia)) as H4.
+  assert (Hq : b / E + 1 <= (b + d) / E) by (apply N.div_le_lower_bound; nia).
+  assert (Hm : E * ((b + d) / E) <= h) by lia.
+  assert (Hh2 : (b + d) / E <= h / E).
+  { apply N.div_le_lower_bound; lia. }
+  lia.
+Qed.
